@@ -8,7 +8,11 @@ import (
 
 func BuildMethodParameters(parameters parser.IFormalParametersContext) []core_domain.CodeProperty {
 	var methodParams []core_domain.CodeProperty = nil
-	parameterList := parameters.GetChild(1).(*parser.FormalParameterListContext)
+	formalParameters, ok := parameters.(*parser.FormalParametersContext)
+	if !ok || formalParameters.FormalParameterList() == nil {
+		return methodParams
+	}
+	parameterList := formalParameters.FormalParameterList().(*parser.FormalParameterListContext)
 	formalParameter := parameterList.AllFormalParameter()
 	for _, param := range formalParameter {
 		paramContext := param.(*parser.FormalParameterContext)
